@@ -1085,9 +1085,71 @@ fn run_generators(ctx: &mut Ctx) {
     }
 }
 
+/// comparison agrees with numerical order on every ordered pair of a signed dense family
+fn run_order(ctx: &mut Ctx) {
+    if !ctx.space("G-order") || !ctx.mine(0) {
+        return;
+    }
+    let mut mags: Vec<Vec<u64>> = alpha::dense(&alpha::SIGMA5, 3);
+    for l in 1..=5usize {
+        for salt in 0..2u64 {
+            mags.push(alpha::lcg_digits(l, salt));
+        }
+    }
+    let mut vals: Vec<(Int, BigInt)> = Vec::new();
+    for d in &mags {
+        let n = Nat::from_digits(d);
+        vals.push((Int::new(false, n.clone()), bi_int(&Int::new(false, n.clone()))));
+        if !n.is_zero() {
+            vals.push((Int::new(true, n.clone()), bi_int(&Int::new(true, n))));
+        }
+    }
+    for (av, ab) in &vals {
+        for (bv, bb) in &vals {
+            ctx.case();
+            ctx.calls(6);
+            ctx.compared(1);
+            if av != bv {
+                ctx.nontrivial(1);
+            }
+            let want = av.cmp(bv);
+            let r = guard(|| {
+                let c = ab.cmp(bb);
+                let ok = c == want
+                    && ab.partial_cmp(bb) == Some(want)
+                    && (ab < bb) == (want == Ordering::Less)
+                    && (ab <= bb) == (want != Ordering::Greater)
+                    && (ab > bb) == (want == Ordering::Greater)
+                    && (ab == bb) == (want == Ordering::Equal)
+                    && (ab != bb) == (want != Ordering::Equal)
+                    && std::cmp::max(ab, bb) == if want == Ordering::Less { bb } else { ab }
+                    && std::cmp::min(ab, bb) == if want == Ordering::Greater { bb } else { ab }
+                    && (want != Ordering::Equal || hash_of(ab) == hash_of(bb));
+                // the magnitudes through BigUint's own Ord
+                let mw = av.mag.cmp(&bv.mag);
+                ok && ab.magnitude().cmp(bb.magnitude()) == mw && (ab.magnitude() < bb.magnitude()) == (mw == Ordering::Less)
+            });
+            if r != Ok(true) {
+                ctx.viol(format!("order a={} b={}", av.to_hex(), bv.to_hex()), "cmp / partial_cmp / < <= > == != / max / min disagree with numerical order", vec![], format!("{:?}", want), format!("{:?}", r));
+            }
+        }
+    }
+    // sort of the whole family
+    let mut sorted: Vec<BigInt> = vals.iter().map(|(_, b)| b.clone()).collect();
+    sorted.sort();
+    let mut msorted: Vec<Int> = vals.iter().map(|(v, _)| v.clone()).collect();
+    msorted.sort_by(|a, b| a.cmp(b));
+    ctx.compared(1);
+    if sorted.iter().map(int_of).collect::<Vec<_>>() != msorted {
+        ctx.viol("sort of the signed dense family".into(), "sort() disagrees with numerical order", vec![], "numerical order".into(), "different".into());
+    }
+    ctx.sample(|| format!("every ordered pair of {} signed values (Dense(S5,3) + dense LCG up to 5 digits): cmp, partial_cmp, six comparison operators, max, min, sort", vals.len()));
+}
+
 fn body(ctx: &mut Ctx) {
     run_hist(ctx);
     run_generators(ctx);
+    run_order(ctx);
 }
 
 fn main() {
